@@ -6,7 +6,9 @@ import Wee.Proofs.TTLemmas
 # Lemmas for C06 (mate claims are true)
 
 1. the executable solver `forcedMate`/`lostIn` is sound for the inductive `Win`/`Lost`;
-2. `static_ok`: a terminal static evaluation is the mate branch (from the C05 bound);
+2. `static_ok`: a terminal static evaluation is the mate branch (for every state since the repair of F10 — the
+   heuristic result of `evaluate` is clamped; before, from the C05 bound `MaterialBounded`, whose definition is kept
+   because property theorems still mention it as a now-redundant hypothesis);
 3. `quiesce_sound`: quiescence values are `SoundVal`;
 4. a small Hoare logic for `M = ExceptT Stop (StateM St)` and the soundness of `searchNode`
    with a sound transposition table (`searchNode_sound`).
